@@ -162,11 +162,94 @@ def check_case(rep, geo, exp, kind, desc, rng):
                 ok = ok and abs(c.distance[k] - dist) <= 1e-9 * max(1.0, dist)
             if geo.permeability_angle == 0.0:
                 dxy = gc.column[1].centre - gc.column[0].centre
-                ok = ok and c.direction == (1 if abs(dxy[0]) > abs(dxy[1]) else 2)
+                if abs(abs(dxy[0]) - abs(dxy[1])) > 1e-9 * max(abs(dxy[0]), abs(dxy[1])):     # a 45-degree line belongs to either direction
+                    ok = ok and c.direction == (1 if abs(dxy[0]) > abs(dxy[1]) else 2)
             if not ok:
                 det2.update(area=c.area, distance=list(c.distance), dircos=c.dircos, direction=c.direction, expected=e)
                 rep.violation(key + ":horizontal-connection", "P_horizontal_connection", det2)
                 return
+
+
+def float_expected(geo):
+    """GeoToGrid.tla's definitions (BNList, BlockTop, BlockVol2, BlockZ2, Vertical, Horizontal, AllConns) instantiated in
+    floating point for a geometry off the lattice, in the units check_case expects (doubled, in multiples of H)."""
+    lays, cols = geo.layerlist, geo.columnlist
+    atm = geo.atmosphere_type
+
+    def area(c):
+        pts = [n.pos - c.node[0].pos for n in c.node]          # relative to a vertex: coordinates are of the order 1e6
+        return 0.5 * abs(sum(pts[i][0] * pts[(i + 1) % len(pts)][1] - pts[(i + 1) % len(pts)][0] * pts[i][1] for i in range(len(pts))))
+
+    def top(c, j):
+        if c.surface < lays[j].top:
+            return c.surface
+        if c.surface > lays[0].top and j == 1:
+            return c.surface
+        return lays[j].top
+
+    def z(c, j):
+        if lays[j].bottom < c.surface <= lays[j].top:
+            return 0.5 * (lays[j].bottom + c.surface)
+        return 0.5 * (lays[j].bottom + lays[j].top)
+
+    def inlay(c, j):
+        return c.surface > lays[j].bottom
+    bn = lambda j, c: (c.name, lays[j].name)
+    atmname = lambda c: (geo.atmosphere_column_name, lays[0].name) if atm == 0 else (c.name, lays[0].name)
+    blocks = [(geo.atmosphere_column_name, lays[0].name)] if atm == 0 else ([(c.name, lays[0].name) for c in cols] if atm == 1 else [])
+    data, conns = [], []
+    ar = {c.name: area(c) for c in cols}
+    for j in range(1, len(lays)):
+        for c in cols:
+            if inlay(c, j):
+                blocks.append(bn(j, c))
+                data.append({"name": bn(j, c), "vol2": 2 * ar[c.name] * (top(c, j) - lays[j].bottom) / H ** 3, "z2": 2 * z(c, j) / H})
+    for j in range(1, len(lays)):
+        for c in cols:
+            if not inlay(c, j):
+                continue
+            if j == 1 or c.surface <= lays[j].top:
+                if atm != 2:
+                    conns.append({"kind": "atm", "b1": bn(j, c), "b2": atmname(c), "area2": 2 * ar[c.name] / H ** 2,
+                                  "d1x2": 2 * (c.surface - z(c, j)) / H, "d2x2": -1, "cossign": -1})
+            else:
+                conns.append({"kind": "vert", "b1": bn(j, c), "b2": bn(j - 1, c), "area2": 2 * ar[c.name] / H ** 2,
+                              "d1x2": 2 * (lays[j].top - 0.5 * (lays[j].bottom + lays[j].top)) / H,
+                              "d2x2": 2 * (z(c, j - 1) - lays[j - 1].bottom) / H, "cossign": -1})
+        for k in geo.connectionlist:
+            c1, c2 = k.column
+            if inlay(c1, j) and inlay(c2, j):
+                p, q = k.node[0].pos, k.node[1].pos
+                h = min(top(c1, j), top(c2, j)) - lays[j].bottom
+                dz = z(c2, j) - z(c1, j)
+                conns.append({"kind": "horiz", "b1": bn(j, c1), "b2": bn(j, c2), "area2": 2 * math.hypot(q[0] - p[0], q[1] - p[1]) * h / H ** 2,
+                              "d1x2": -1, "d2x2": -1, "cossign": -1 if dz > 1e-12 else (1 if dz < -1e-12 else 0)})
+    return {"blocks": blocks, "data": data, "conns": conns, "totalvol": True}
+
+
+def shipped_cases(tier, rng):
+    """Irregular shipped geometries, a refinement, a rotation and a translation of them (the statement's quantifier)."""
+    m = core.repo_modules("mulgrids")
+    names = ["g7", "g1"] if tier == "quick" else ["g1", "g2", "g3", "g4", "g5", "g6", "g7"]
+    for n in names:
+        with core.quiet():
+            geo = m.mulgrid(os.path.join(core.REPO, "tests", "mulgrid", n + ".dat"))
+        yield n, geo
+        if n in ("g7", "g3", "g5"):
+            with core.quiet():
+                g2 = m.mulgrid(os.path.join(core.REPO, "tests", "mulgrid", n + ".dat"))
+                sel = [c for c in g2.columnlist if c.num_nodes in (3, 4)]
+                g2.refine(rng.sample(sel, max(1, len(sel) // 6)))
+                g2.setup_block_name_index()
+                g2.setup_block_connection_name_index()
+            yield n + "+refined", g2
+            with core.quiet():
+                g3 = m.mulgrid(os.path.join(core.REPO, "tests", "mulgrid", n + ".dat"))
+                g3.rotate(27.0)
+                g3.translate(np.array([1234.5, -987.25, 40.0]))
+                g3.setup_block_name_index()
+                g3.setup_block_connection_name_index()
+            yield n + "+rotated+translated", g3
 
 
 def _unmap(bmap, name):
@@ -219,13 +302,19 @@ def run(tier):
             n += 1
             if n <= 2:
                 rep.sample({"case": desc, "expected_blocks": exp["blocks"][:6], "expected_connections": [[e["b1"], e["b2"], e["kind"]] for e in exp["conns"][:5]]})
+    for name, geo in shipped_cases(tier, rng):
+        desc = {"mesh": name, "columns": geo.num_columns, "layers": geo.num_layers, "atmos_type": geo.atmosphere_type, "convention": geo.convention}
+        rep.case(json.dumps(desc, sort_keys=True))
+        check_case(rep, geo, float_expected(geo), name, desc, rng)
+        n += 1
     rep.traces += n
     rep.rule = ("lattice geometries 1x2, 2x2 (unequal spacings), L-shaped, triangle+quadrilateral x 2..3 layers x surface placements per "
                 "column (above ground, at ground, inside a layer, on a layer boundary, in a lower layer) x atmosphere types x "
-                "conventions x block orders x permeability angles, with and without a block map; expected values from GeoToGrid.tla")
+                "conventions x block orders x permeability angles, with and without a block map; expected values from GeoToGrid.tla; "
+                "shipped irregular geometries, refined, rotated and translated, against the same definitions in floating point")
     rep.leaves = ["horizontal connection distances (perpendicular distance centre -> shared edge) and the cosine's value from node and "
                   "centre coordinates in floating point (1e-9 / 1e-12)", "permeability direction checked for angle 0 only"]
-    rep.assumptions = ["untilted geometries", "irregular shipped meshes are not part of this check's cases"]
+    rep.assumptions = ["untilted geometries", "on shipped geometries (and their refinements / rotations) the expected values are GeoToGrid.tla's definitions instantiated in floating point by the harness (float_expected), not evaluated by TLC"]
     rep.exhaustive = False
     return rep.finish()
 
